@@ -136,6 +136,9 @@ func runC18(r *core.Run) {
 		"SELECT c1, c2 FROM tbl WHERE (c1, c2) = (1, 'a') OR (c1, c2) IN ((2, 'bb'), (3, NULL))", "SELECT DATETIME('2012-02-03') < NOW(), TRUE IS UNKNOWN, NULL IS NOT FALSE",
 		"SELECT JSON_OBJECT(c1, c2) FROM tbl", "SELECT SUBSTRING(c2 FROM 1 FOR 2), TRIM(' x '), c1 BETWEEN 1 AND 2 AND c2 IS NULL FROM tbl",
 		"SELECT 1 AS `a\"`, 2 AS `x\"\"y`, 3 AS `\"q\"`, 4 AS `\"`", "SELECT s.`c\"1` + 1, `d\"\"` FROM (SELECT c1 AS `c\"1`, c2 AS `d\"\"` FROM tbl) s", "SELECT 'x' AS `it''s`, 'y' AS `a\\\"b`",
+		"SELECT c1 FROM tbl ORDER BY c1 FETCH FIRST 50 PERCENT ONLY", "SELECT c1 FROM tbl ORDER BY c1 DESC OFFSET 1 ROW FETCH NEXT 2 ROWS WITH TIES", "SELECT c1 FROM tbl ORDER BY c1 FETCH FIRST 1 ROW ONLY",
+		"SELECT c1, (SELECT COUNT(*) FROM (SELECT c1 FROM tbl ORDER BY c1 FETCH FIRST 34 PERCENT WITH TIES) s) AS n FROM tbl ORDER BY c1 LIMIT 40 PERCENT", "SELECT c1 FROM tbl ORDER BY c1 LIMIT 2 ROWS OFFSET 1 ROWS",
+		"SELECT c1 FROM tbl WHERE c1 IN (SELECT c1 FROM tbl ORDER BY c1 OFFSET 2 ROWS FETCH NEXT 60 PERCENT ROWS ONLY)",
 		"SELECT ! !TRUE, !(!FALSE), ! ! !TRUE AS r, NOT !TRUE", "SELECT !(c1 > 1), ! (!(c1 > 1)) FROM tbl",
 		"INSERT INTO tbl (c1, c2) VALUES (9, 'z'), (10, NULL)", "UPDATE tbl SET c2 = c2 || 'x' WHERE c1 IN (SELECT c1 FROM tbl)", "DELETE FROM tbl WHERE c1 > 100",
 		"REPLACE INTO tbl (c1, c2) USING (c1) VALUES (1, 'q')", "ALTER TABLE tbl ADD (c3 DEFAULT c1 * 2) AFTER c1", "CREATE TABLE `new.csv` (a, b)",
